@@ -698,3 +698,10 @@ def shrink(case, fails):
         if cur.get(key) != val and not (key == "via" and cur["kind"] == "uc"):
             attempt(dict(cur, **{key: val}))
     return cur
+
+# ----------------------------------------------------------------------------------------------- translator hook
+def translate(repo, gen_dir):
+    """regenerate Gen/C12_Kernel.v (kernel expressions of util.py, srange, the eight from_algmod loop nests, the four genic
+    classes and _calc_uc) from the current source; fail closed"""
+    from translate import c12_kernel
+    return [c12_kernel.translate(repo, gen_dir)]
